@@ -508,7 +508,7 @@ Theorem stall_wedge :
   exists s, forallb client_label stall_wedge_witness = true
             /\ run params_before stall_wedge_witness init = Some s
             /\ main s = MBlockSend /\ stuck params_before s = true /\ fired s = false
-            /\ idle_timeout params_before <= idle s /\ enabled params_before LMainIdle s = false.
+            /\ (idle_timeout params_before <=? idle s) = true /\ enabled params_before LMainIdle s = false.
 Proof.
   eexists. split; [vm_compute; reflexivity|]. split; [vm_compute; reflexivity|].
   vm_compute. repeat split; auto.
